@@ -22,11 +22,18 @@ if GOENV.get('GOSUMDB') == 'off':
     del GOENV['GOSUMDB']
 
 
-def sh(cmd, timeout=3600, env=None, cwd=None):
+def _limit_mem(gb):
+    def f():
+        import resource
+        resource.setrlimit(resource.RLIMIT_AS, (gb << 30, gb << 30))
+    return f
+
+
+def sh(cmd, timeout=3600, env=None, cwd=None, mem_gb=None):
     t = time.time()
     try:
         r = subprocess.run(cmd, shell=isinstance(cmd, str), capture_output=True, text=True,
-                           timeout=timeout, env=env, cwd=cwd)
+                           timeout=timeout, env=env, cwd=cwd, preexec_fn=_limit_mem(mem_gb) if mem_gb else None)
         return r.returncode, r.stdout + r.stderr, time.time() - t
     except subprocess.TimeoutExpired as e:
         o = e.stdout or ''
@@ -200,7 +207,8 @@ def translate(tasks=None):
 
 def make_targets(targets, jobs=16, timeout=3000):
     coq_makefile()
-    return sh(['make', f'-j{jobs}', '-k'] + targets, timeout=timeout, cwd=COQ)
+    # each coqc may use at most 20 GB of address space: a runaway proof fails instead of exhausting the machine
+    return sh(['make', f'-j{jobs}', '-k'] + targets, timeout=timeout, cwd=COQ, mem_gb=20)
 
 
 def print_assumptions(vfile):
